@@ -219,6 +219,17 @@ def run(spec):
             res.add("address", "C09.address_dependent.kinds_" + tags,
                     "ranked run vs unmodified classes rebuilt at other addresses differ at %s: %r vs %r" % diff, None)
         del junk
+        # ID strings that are the same object (main_workplace_id=wp.ID) vs equal copies (IDs read from a file): same result
+        scen.setup_run(spec.get("seed", 0))
+        b2 = B.build(m, spec.get("ranks"), share_id_objects=True)
+        rec2, out2 = scen.simulate(b2.project, spec["cfg"], want_snap=False)
+        d2 = D.dump(b2.project)
+        d2["_outcome"] = [out2.ok, out2.exc_type, out2.where]
+        compared += 1
+        diff = D.first_diff(dref, d2)
+        if diff is not None:
+            res.add("address", "C09.depends_on_id_string_identity",
+                    "the same model with main_workplace_id being the workplace's ID object vs an equal copy of it differs at %s: %r vs %r" % diff, None)
     elif mode == "again":
         p = ref.project
         # call simulate() again on the already simulated object
@@ -255,7 +266,9 @@ def run_history(spec, res, dref):
     res.count("global_state_checked")
     scen.setup_run(spec.get("seed", 0))
     b0 = B.build(spec["model"], spec.get("ranks"))
-    b1 = B.build(spec["model2"], None)
+    m2 = dict(spec["model2"])
+    m2["assign_style"] = True  # built like the library's own tests do: defaults, then skill maps filled item by item
+    b1 = B.build(m2, None)
     ps = [b0.project, b1.project]
     for p in ps:
         seams.attach(p)
